@@ -1,7 +1,489 @@
 package sim
 
-// C09 / C07(ii) / C11 monitors (filled in below as the engines grow).
+import (
+	"bytes"
+	"fmt"
 
-func (m *Monitors) checkLeaderOutput(n *Node, sm *SentMsg)     {}
-func (m *Monitors) checkVoterOutput(n *Node, sm *SentMsg)      {}
-func (m *Monitors) checkAcceptance(n *Node, msg *Msg, pre Pre) {}
+	"github.com/orbs-network/lean-helix-go/services/interfaces"
+	"github.com/orbs-network/lean-helix-go/spec/types/go/primitives"
+	"github.com/orbs-network/lean-helix-go/spec/types/go/protocol"
+
+	"verif/fakes"
+	"verif/ref"
+)
+
+// ---------------------------------------------------------------- effects of one delivery
+
+// Effect is what one delivered message did to a node, restricted to the height the node was at before the delivery
+// (what happens at later heights during the same call belongs to cached messages drained there, not to this message).
+type Effect struct {
+	Stored     []fakes.StoreEvent // Store* calls that returned true
+	StoreCalls []fakes.StoreEvent // every Store* call (true or false)
+	Sends      []*SentMsg
+	ViewMoved  bool
+	Committed  bool
+}
+
+func (e Effect) Any() bool {
+	return len(e.Stored) > 0 || len(e.Sends) > 0 || e.ViewMoved || e.Committed
+}
+
+func (m *Monitors) effects(n *Node, pre Pre) Effect {
+	var e Effect
+	for _, s := range n.Sto.Log[pre.StoreLen:] {
+		if uint64(s.H) == pre.H {
+			e.StoreCalls = append(e.StoreCalls, s)
+			if s.Stored {
+				e.Stored = append(e.Stored, s)
+			}
+		}
+	}
+	for _, s := range n.Sent[pre.SentLen:] {
+		if s.AtH == pre.H {
+			e.Sends = append(e.Sends, s)
+		}
+	}
+	if n.H() == pre.H && n.V() != pre.V {
+		e.ViewMoved = true
+	}
+	for _, c := range n.Commits[pre.CommitsLen:] {
+		if c.H == pre.H {
+			e.Committed = true
+		}
+	}
+	return e
+}
+
+func (m *Monitors) consumerOKAt(n *Node, h uint64) func(b interfaces.Block, hash primitives.BlockHash) bool {
+	return func(b interfaces.Block, hash primitives.BlockHash) bool {
+		if fakes.ValidProposal(primitives.BlockHeight(h), b, hash, m.prevBlockOf(n, h)) != nil {
+			return false
+		}
+		if n.BU.Reject != nil && n.BU.Reject(fakes.AsBlock(b)) {
+			return false
+		}
+		return true
+	}
+}
+
+// mayInfluence is the C08 reference predicate for a PREPREPARE / PREPARE / COMMIT / VIEW_CHANGE delivered to node n in state (h,v).
+func (m *Monitors) mayInfluence(n *Node, raw *interfaces.ConsensusRawMessage, h, v uint64) ref.Verdict {
+	w := m.w
+	no := func(s string) ref.Verdict { return ref.Verdict{Why: s} }
+	r := protocol.LeanhelixContentReader(raw.Content)
+	com := w.Committee(primitives.BlockHeight(h))
+	base := func(hd *protocol.BlockRef, s *protocol.SenderSignature, wantType protocol.MessageType) ref.Verdict {
+		if hd == nil || s == nil || len(hd.Raw()) == 0 {
+			return no("malformed")
+		}
+		if hd.InstanceId() != Instance {
+			return no("instance")
+		}
+		if uint64(hd.BlockHeight()) != h {
+			return no("height")
+		}
+		if hd.MessageType() != wantType {
+			return no("type-tag")
+		}
+		if !ref.IsMember(com, s.MemberId()) {
+			return no("sender-not-member")
+		}
+		if !w.Reg.VerifyMsg(hd.BlockHeight(), hd.Raw(), s.MemberId(), s.Signature()) {
+			return no("signature")
+		}
+		return ref.Verdict{OK: true}
+	}
+	switch {
+	case r.IsMessagePreprepareMessage():
+		pp := r.PreprepareMessage()
+		if vd := base(pp.SignedHeader(), pp.Sender(), protocol.LEAN_HELIX_PREPREPARE); !vd.OK {
+			return vd
+		}
+		if !pp.Sender().MemberId().Equal(ref.Leader(pp.SignedHeader().View(), com)) {
+			return no("pp-not-from-leader")
+		}
+		return ref.Verdict{OK: true}
+	case r.IsMessagePrepareMessage():
+		p := r.PrepareMessage()
+		if vd := base(p.SignedHeader(), p.Sender(), protocol.LEAN_HELIX_PREPARE); !vd.OK {
+			return vd
+		}
+		if p.Sender().MemberId().Equal(ref.Leader(p.SignedHeader().View(), com)) {
+			return no("prepare-from-leader")
+		}
+		if uint64(p.SignedHeader().View()) < v {
+			return no("stale-view")
+		}
+		return ref.Verdict{OK: true}
+	case r.IsMessageCommitMessage():
+		c := r.CommitMessage()
+		if vd := base(c.SignedHeader(), c.Sender(), protocol.LEAN_HELIX_COMMIT); !vd.OK {
+			return vd
+		}
+		if !w.Reg.VerifyShare(primitives.BlockHeight(h), ref.SeedBytes(m.seedOfNode(n, h)), c.Sender().MemberId(), c.Share()) {
+			return no("bad-share")
+		}
+		return ref.Verdict{OK: true}
+	case r.IsMessageViewChangeMessage():
+		vc := r.ViewChangeMessage()
+		hd := vc.SignedHeader()
+		if hd.InstanceId() != Instance {
+			return no("instance")
+		}
+		if uint64(hd.BlockHeight()) != h {
+			return no("height")
+		}
+		if !n.ID.Equal(ref.Leader(hd.View(), com)) {
+			return no("vc-not-addressed-to-leader")
+		}
+		if uint64(hd.View()) < v {
+			return no("stale-view")
+		}
+		vd, info := w.Env.ValidVote(vc, primitives.BlockHeight(h), hd.View(), com)
+		if !vd.OK {
+			return vd
+		}
+		if info != nil && raw.Block != nil && !commitmentOK(raw.Block, info.Hash) {
+			return no("vc-block-does-not-match-proof")
+		}
+		return ref.Verdict{OK: true}
+	}
+	return no("not-a-pp-p-c-vc")
+}
+
+// seedOfNode: the random seed node n's term of height h was started with.
+func (m *Monitors) seedOfNode(n *Node, h uint64) uint64 {
+	return ref.SeedOf(protocol.BlockProofReader(m.per[n.Idx].proofFor[h]).RandomSeedSignature())
+}
+
+// judgeDelivery implements the C07 / C08 oracles for one delivery (used by engine N, and as a monitor on every delivery in engine S).
+func (m *Monitors) judgeDelivery(n *Node, msg *Msg, pre Pre) {
+	if !m.on("C07") && !m.on("C08") {
+		return
+	}
+	w := m.w
+	meta := msg.Meta
+	eff := m.effects(n, pre)
+	if !eff.Any() {
+		return
+	}
+	if !meta.OK {
+		m.fail("C08", "effect-of-unparseable-message", "node %d: an unparseable message had an effect", n.Idx)
+		return
+	}
+	if meta.H != pre.H {
+		if meta.H < pre.H {
+			m.fail("C08", "effect-of-other-height:past", "node %d at height %d: a message for height %d had an effect", n.Idx, pre.H, meta.H)
+		}
+		// a future-height message is cached; effects seen now at pre.H cannot come from it... unless the filter is broken
+		if meta.H > pre.H {
+			m.fail("C08", "effect-of-other-height:future", "node %d at height %d: a message for height %d had an immediate effect", n.Idx, pre.H, meta.H)
+		}
+		return
+	}
+	com := w.Committee(primitives.BlockHeight(pre.H))
+	if meta.Union == UNV {
+		nv := interfaces.ToConsensusMessage(msg.Raw).(*interfaces.NewViewMessage)
+		vd, _ := w.Env.ValidNewView(nv, primitives.BlockHeight(pre.H), com, commitmentOK, m.consumerOKAt(n, pre.H))
+		if vd.OK && meta.V < pre.V {
+			vd = ref.Verdict{Why: "stale-view"}
+		}
+		if !vd.OK {
+			m.fail("C07", "invalid-new-view-had-effect:"+vd.Why, "node %d in (h=%d,v=%d): NEW_VIEW(v=%d) that fails the reference certificate check (%s) had an effect (stored=%d sends=%d viewMoved=%v)", n.Idx, pre.H, pre.V, meta.V, vd.Why, len(eff.Stored), len(eff.Sends), eff.ViewMoved)
+		}
+		m.Facts["nv-accepted"]++
+		return
+	}
+	// C07 (i): adopting a proposal / preparing / moving into a view > 0 because of a message that is not a NEW_VIEW
+	for _, s := range eff.Sends {
+		if s.Meta.Union == UP && s.Meta.V > 0 && meta.Union == UPP {
+			m.fail("C07", "standalone-preprepare-adopted", "node %d in (h=%d,v=%d) sent PREPARE for view %d after a stand-alone PREPREPARE, without a NEW_VIEW certificate", n.Idx, pre.H, pre.V, s.Meta.V)
+		}
+	}
+	for _, s := range eff.Stored {
+		if s.Kind == "PP" && uint64(s.V) > 0 && s.Sender != string(n.ID) {
+			m.fail("C07", "standalone-preprepare-adopted", "node %d in (h=%d,v=%d) stored a proposal for view %d delivered as a stand-alone %s", n.Idx, pre.H, pre.V, s.V, kindName(meta.Union))
+		}
+	}
+	if eff.ViewMoved {
+		// only a VIEW_CHANGE completing this node's own election may move its view (judged at NEW_VIEW emission, C07 (ii))
+		nowV := n.V()
+		leads := n.ID.Equal(ref.Leader(primitives.View(nowV), com))
+		if !(meta.Union == UVC && leads) {
+			m.fail("C07", "view-moved-by-non-certificate", "node %d moved from view %d to %d on a %s", n.Idx, pre.V, nowV, kindName(meta.Union))
+		}
+	}
+	// C08
+	if vd := m.mayInfluence(n, msg.Raw, pre.H, pre.V); !vd.OK {
+		// a stand-alone PREPREPARE for a view > 0 that is otherwise authentic is C07's business (reported above)
+		m.fail("C08", "unauthorised-influence:"+kindName(meta.Union)+":"+vd.Why, "node %d in (h=%d,v=%d): %s(h=%d,v=%d) claimed from %q that fails the reference predicate (%s) had an effect (stored=%d sends=%d viewMoved=%v committed=%v)",
+			n.Idx, pre.H, pre.V, kindName(meta.Union), meta.H, meta.V, meta.Sender, vd.Why, len(eff.Stored), len(eff.Sends), eff.ViewMoved, eff.Committed)
+	}
+	m.Facts["msg-accepted:"+kindName(meta.Union)]++
+}
+
+func kindName(u int) string {
+	switch u {
+	case UPP:
+		return "PREPREPARE"
+	case UP:
+		return "PREPARE"
+	case UC:
+		return "COMMIT"
+	case UVC:
+		return "VIEW_CHANGE"
+	case UNV:
+		return "NEW_VIEW"
+	}
+	return "UNKNOWN"
+}
+
+// ---------------------------------------------------------------- C09 / C07(ii): what a correct node emits on view change
+
+// highestPreparedView: the highest view of height h in which node n sent a COMMIT right after becoming prepared
+// (a COMMIT sent on a commit quorum ends the height, so it cannot precede a VIEW_CHANGE of the same height).
+func (m *Monitors) highestPrepared(n *Node, h uint64, before int) (uint64, string, bool) {
+	var bv uint64
+	var bx string
+	found := false
+	for _, s := range n.Sent {
+		if s.Seq >= before {
+			break
+		}
+		if s.Meta.Union == UC && s.Meta.H == h && (!found || s.Meta.V >= bv) {
+			bv, bx, found = s.Meta.V, s.Meta.Hash, true
+		}
+	}
+	return bv, bx, found
+}
+
+func (m *Monitors) checkVoterOutput(n *Node, sm *SentMsg) {
+	if !m.on("C09") && !m.on("C11") {
+		return
+	}
+	w := m.w
+	h := sm.Meta.H
+	com := w.Committee(primitives.BlockHeight(h))
+	vc := protocol.LeanhelixContentReader(sm.Raw.Content).ViewChangeMessage()
+	proof := vc.SignedHeader().PreparedProof()
+	has := proof != nil && len(proof.Raw()) > 0
+	pv, px, prepared := m.highestPrepared(n, h, sm.Seq)
+	if !prepared {
+		if has {
+			// a proof without having been prepared is not forbidden by C09, but it must at least be valid (C11)
+			if vd, _ := w.Env.ValidPreparedProof(proof, primitives.BlockHeight(h), primitives.View(sm.Meta.V), com); !vd.OK {
+				m.fail("C11", "emitted-vote-with-invalid-proof:"+vd.Why, "node %d sent a VIEW_CHANGE(v=%d) with an invalid prepared proof (%s)", n.Idx, sm.Meta.V, vd.Why)
+			}
+		}
+		return
+	}
+	m.Facts["vc-while-prepared"]++
+	if !has {
+		m.fail("C09", "vote-without-proof-while-prepared", "node %d, prepared in view %d, sent VIEW_CHANGE(v=%d) without a prepared proof", n.Idx, pv, sm.Meta.V)
+		return
+	}
+	vd, info := w.Env.ValidPreparedProof(proof, primitives.BlockHeight(h), primitives.View(sm.Meta.V), com)
+	if !vd.OK {
+		m.fail("C09", "vote-proof-invalid:"+vd.Why, "node %d, prepared in view %d, sent VIEW_CHANGE(v=%d) whose prepared proof is invalid (%s)", n.Idx, pv, sm.Meta.V, vd.Why)
+		return
+	}
+	if uint64(info.View) != pv || string(info.Hash) != px {
+		m.fail("C09", "vote-proof-not-highest-prepared", "node %d is prepared in view %d but its VIEW_CHANGE(v=%d) carries the proof of view %d", n.Idx, pv, sm.Meta.V, info.View)
+	}
+	if sm.Raw.Block == nil || !commitmentOK(sm.Raw.Block, info.Hash) {
+		m.fail("C09", "vote-block-missing-or-mismatch", "node %d: VIEW_CHANGE(v=%d) with a proof for view %d does not carry the matching block", n.Idx, sm.Meta.V, info.View)
+	}
+}
+
+func (m *Monitors) checkLeaderOutput(n *Node, sm *SentMsg) {
+	if sm.Meta.Union != UNV {
+		if sm.Meta.V > 0 && sm.Meta.Union == UPP {
+			m.fail("C07", "leader-standalone-proposal-in-view>0", "node %d sent a stand-alone PREPREPARE for view %d", n.Idx, sm.Meta.V)
+		}
+		return
+	}
+	if !m.on("C09") && !m.on("C07") && !m.on("C11") {
+		return
+	}
+	w := m.w
+	h, v := sm.Meta.H, sm.Meta.V
+	com := w.Committee(primitives.BlockHeight(h))
+	nv := protocol.LeanhelixContentReader(sm.Raw.Content).NewViewMessage()
+	// votes the node stored for (h,v) (Storage recorder), including its own
+	stored := map[string]*interfaces.ViewChangeMessage{}
+	for _, e := range n.Sto.Log {
+		if e.Kind == "VC" && e.Stored && uint64(e.H) == h && uint64(e.V) == v {
+			stored[e.Sender] = e.Msg.(*interfaces.ViewChangeMessage)
+		}
+	}
+	embedded := map[string]*protocol.ViewChangeMessageContent{}
+	var ids []primitives.MemberId
+	var best *ref.ProofInfo
+	var bestBlock interfaces.Block
+	anyProof := false
+	it := nv.SignedHeader().ViewChangeConfirmationsIterator()
+	for it.HasNext() {
+		vote := it.NextViewChangeConfirmations()
+		id := string(vote.Sender().MemberId())
+		if embedded[id] != nil {
+			m.fail("C09", "new-view-duplicate-vote", "node %d: NEW_VIEW(v=%d) embeds two votes of one member", n.Idx, v)
+		}
+		embedded[id] = vote
+		st, okStored := stored[id]
+		if !okStored {
+			m.fail("C09", "new-view-vote-not-counted", "node %d: NEW_VIEW(v=%d) embeds a vote of %q that the node never stored for that view", n.Idx, v, id)
+			continue
+		}
+		// C07 (ii) / C09: every embedded vote is a reference-valid vote, re-encoded so that its signature still verifies
+		vd, info := w.Env.ValidVote(vote, primitives.BlockHeight(h), primitives.View(v), com)
+		if !vd.OK {
+			m.fail("C07", "leader-counted-invalid-vote:"+vd.Why, "node %d: NEW_VIEW(v=%d) embeds a vote of %q that fails the reference vote check (%s)", n.Idx, v, id, vd.Why)
+			continue
+		}
+		if !bytes.Equal(vote.SignedHeader().Raw(), st.Content().SignedHeader().Raw()) && !w.Reg.VerifyMsg(primitives.BlockHeight(h), vote.SignedHeader().Raw(), vote.Sender().MemberId(), vote.Sender().Signature()) {
+			m.fail("C09", "new-view-vote-reencoding-broke-signature", "node %d: NEW_VIEW(v=%d): re-encoded vote of %q no longer verifies", n.Idx, v, id)
+		}
+		ids = append(ids, vote.Sender().MemberId())
+		if hasProofVC(vote) {
+			anyProof = true
+		}
+		if info != nil && (best == nil || info.View > best.View) {
+			best = info
+			bestBlock = st.Block()
+		}
+	}
+	for id := range stored {
+		if embedded[id] == nil {
+			m.fail("C09", "new-view-drops-counted-vote", "node %d: NEW_VIEW(v=%d) does not embed the stored vote of %q", n.Idx, v, id)
+		}
+	}
+	if !ref.IsQuorum(ids, com) {
+		m.fail("C07", "leader-proposed-without-quorum-of-valid-votes", "node %d emitted NEW_VIEW(v=%d) with valid votes below quorum weight", n.Idx, v)
+	}
+	pp := nv.Message()
+	hash := pp.SignedHeader().BlockHash()
+	// fresh proposal requested iff no embedded vote carries a proof
+	fresh := false
+	if cur, ok := m.cur[n.Idx]; ok {
+		for _, pc := range n.BU.Proposals[cur.PropLen:] { // RequestNewBlockProposal calls made during the event that emitted this NEW_VIEW
+			if b, ok := n.BU.Proposed[pc.BlockID]; ok && b.Hash().Equal(hash) && uint64(pc.H) == h {
+				fresh = true
+			}
+		}
+	}
+	if len(embedded) >= 2 {
+		m.Facts["nv-emitted"]++
+	}
+	if anyProof {
+		m.Facts["nv-emitted-with-proof"]++
+		if best == nil {
+			return // invalid proofs were reported above
+		}
+		if !hash.Equal(best.Hash) {
+			m.fail("C09", "new-view-not-highest-proven-block", "node %d: NEW_VIEW(v=%d) proposes a block other than the one certified by the highest-view proof (view %d) among its votes", n.Idx, v, best.View)
+		}
+		if sm.Raw.Block == nil || !commitmentOK(sm.Raw.Block, best.Hash) {
+			m.fail("C09", "new-view-block-missing-or-mismatch", "node %d: NEW_VIEW(v=%d) does not carry the block certified by the highest-view proof (vote block present=%v)", n.Idx, v, bestBlock != nil)
+		}
+		if fresh {
+			m.fail("C09", "fresh-proposal-despite-proof", "node %d requested a fresh proposal for NEW_VIEW(v=%d) although a vote carries a proof", n.Idx, v)
+		}
+	} else if !fresh {
+		m.fail("C09", "new-view-block-not-fresh-without-proof", "node %d: NEW_VIEW(v=%d) without any proof proposes a block that RequestNewBlockProposal did not return", n.Idx, v)
+	}
+}
+
+func hasProofVC(vc *protocol.ViewChangeMessageContent) bool {
+	p := vc.SignedHeader().PreparedProof()
+	return p != nil && len(p.Raw()) > 0
+}
+
+// ---------------------------------------------------------------- C11: honest output is accepted by honest peers in a matching state
+
+func (m *Monitors) checkAcceptance(n *Node, msg *Msg, pre Pre) {
+	m.judgeDelivery(n, msg, pre)
+	if !m.on("C11") {
+		return
+	}
+	w := m.w
+	if msg.From < 0 || !w.IsCorrect(msg.From) || msg.Origin != "node" {
+		return
+	}
+	meta := msg.Meta
+	if meta.H != pre.H {
+		return
+	}
+	// guard: after an agreement violation peers may be on different chains; C11 does not apply then
+	sender := w.Nodes[msg.From]
+	if fakes.BlockID(m.prevBlockOf(sender, meta.H)) != fakes.BlockID(m.prevBlockOf(n, meta.H)) {
+		return
+	}
+	eff := m.effects(n, pre)
+	storeCall := func(kind string) bool {
+		for _, s := range eff.StoreCalls {
+			if s.Kind == kind && s.Sender == meta.Sender && uint64(s.V) == meta.V && (kind == "VC" || s.Hash == meta.Hash) {
+				return true
+			}
+		}
+		return false
+	}
+	foreign := w.Obs.ByzStored > 0
+	note := func() {
+		if foreign {
+			m.Facts["c11-judged-after-foreign-input"]++
+		}
+		m.Facts["c11-judged"]++
+	}
+	switch meta.Union {
+	case UNV:
+		if pre.V > meta.V {
+			return
+		}
+		for _, e := range n.Sto.Log[:pre.StoreLen] {
+			if e.Kind == "PP" && e.Stored && uint64(e.H) == meta.H && uint64(e.V) == meta.V {
+				return // precondition "has not yet accepted a proposal for that view" was false before the delivery
+			}
+		}
+		note()
+		adopted := n.H() > pre.H || n.V() >= meta.V
+		ppStored := false
+		for _, s := range eff.Stored {
+			if s.Kind == "PP" && uint64(s.V) == meta.V && s.Hash == meta.Hash {
+				ppStored = true
+			}
+		}
+		prepared := false
+		for _, s := range eff.Sends {
+			if s.Meta.Union == UP && s.Meta.V == meta.V && s.Meta.Hash == meta.Hash {
+				prepared = true
+			}
+		}
+		if !adopted || !ppStored || !prepared {
+			m.fail("C11", "honest-new-view-rejected", "node %d in (h=%d,v=%d) did not adopt NEW_VIEW(v=%d) emitted by correct leader %d (view now %d, proposal stored=%v, PREPARE sent=%v)", n.Idx, pre.H, pre.V, meta.V, msg.From, n.V(), ppStored, prepared)
+		}
+	case UVC:
+		com := w.Committee(primitives.BlockHeight(meta.H))
+		if !n.ID.Equal(ref.Leader(primitives.View(meta.V), com)) || pre.V > meta.V {
+			return
+		}
+		note()
+		if !storeCall("VC") {
+			m.fail("C11", "honest-view-change-rejected", "leader node %d in (h=%d,v=%d) did not count VIEW_CHANGE(v=%d) emitted by correct node %d", n.Idx, pre.H, pre.V, meta.V, msg.From)
+		}
+	case UP:
+		if pre.V > meta.V {
+			return
+		}
+		note()
+		if !storeCall("P") {
+			m.fail("C11", "honest-prepare-rejected", "node %d in (h=%d,v=%d) did not count PREPARE(v=%d) emitted by correct node %d", n.Idx, pre.H, pre.V, meta.V, msg.From)
+		}
+	case UC:
+		note()
+		if !storeCall("C") {
+			m.fail("C11", "honest-commit-rejected", "node %d in (h=%d,v=%d) did not count COMMIT(v=%d) emitted by correct node %d", n.Idx, pre.H, pre.V, meta.V, msg.From)
+		}
+	}
+}
+
+var _ = fmt.Sprint
